@@ -451,7 +451,7 @@ def gen_programs(rng, count, tainted=False, contexts=None, routes=None, valid_on
                 where = 'after'          # a deleted name cannot be forwarded at run time
             if kind == 'inline':
                 c0 = p.calls[0]
-                if not (has_vk and c0.vk and (c0.n or c0.names) and not c0.partial
+                if not (len(p.calls) == 1 and has_vk and c0.vk and (c0.n or c0.names) and not c0.partial
                         and p.route not in ('chain_kw', 'chain_pos')):
                     continue
                 c0.inline = True
